@@ -334,6 +334,21 @@ def dispersion_rule(chk, repo, clause):
         ok = ok and isinstance(p.ret, Tup) and len(p.ret) == 2 and \
             p.ret.items[1] == nf.app('polyval', nf.attr(S('self'), 'trace'), p.ret.items[0])
     chk.ob(clause, 'N-inverse', f.key, 'returned y lies on the trace polynomial at the returned x', ok, '', f.loc())
+    # the closed form for a straight trace is chosen by the order of the trace, that of a linear dispersion by the order of
+    # the dispersion: each polynomial has its own order attribute
+    for key, own, other in (('plane.DispersiveTilt._trace', '_trace_order', '_dispersion_order'),
+                            ('plane.DispersiveTilt._dispersion', '_dispersion_order', '_trace_order')):
+        if not repo.has_func(key):
+            continue
+        fo = repo.func(key)
+        _, ps_, _ = analyse(repo, fo)
+        crossed = [fmt(c)[:60] for q in ps_ for c, _pol, _n in q.conds
+                   if nf.attr(S('self'), other).single_atom() in nf.value_atoms(c) and nf.attr(S('self'), own).single_atom() not in nf.value_atoms(c)]
+        tested = any(nf.attr(S('self'), own).single_atom() in nf.value_atoms(c) for q in ps_ for c, _pol, _n in q.conds)
+        chk.ob(clause, 'D-guard', fo.key, f'the first-order shortcut is selected by the order of its own polynomial (`{own}`)',
+               False if crossed else (True if tested else None),
+               (f'branch condition `{crossed[0]}` looks at `{other}`: a curved trace with a linear dispersion (or the reverse) takes the '
+                'straight-line formula of the other polynomial') if crossed else '', fo.loc())
     # arc length along the trace: integrand sqrt(1 + (d trace/dx)^2), with the derivative of *the trace polynomial*
     fd = repo.func('plane.DispersiveTilt._trace_dist_func') if repo.has_func('plane.DispersiveTilt._trace_dist_func') else None
     if fd is not None:
